@@ -697,7 +697,7 @@ func parseFiles(c *common, w *ndWriter, dir string) {
 		b := newParseCase("f:"+filepath.Base(f), text)
 		n := len(b.runes)
 		r := newRng(c.seed, uint64(1000+fi))
-		nSingle, nPair, nMulti := 24, 8, 4
+		nSingle, nPair, nMulti := 16, 6, 3
 		if c.thorough() {
 			nSingle, nPair, nMulti = 200, 40, 16
 		}
@@ -729,7 +729,7 @@ func parseFiles(c *common, w *ndWriter, dir string) {
 func parseRand(c *common, w *ndWriter, dir string) {
 	n := c.n
 	if n == 0 {
-		n = 3000
+		n = 1500
 		if c.thorough() {
 			n = 40000
 		}
